@@ -128,6 +128,9 @@ def run(ctx):
     ctx.rule("C01.h", "every writer-side sampling of the reader slots lies on a call chain that starts after the pointer swap (a zero seen before "
                       "the swap cannot count towards the grace period)", floor=2)
 
+    ctx.rule("C01.k", "the wait's bookkeeping starts from 'no slot seen idle': constant initialisers of the seen flags in the swapping writer are all "
+                      "false (flags that start true end the grace period before any reader slot was looked at)", floor=2)
+
     def body(ctx):
         R = Roles(F)
         types = hl.lock_types(F)
@@ -141,6 +144,8 @@ def run(ctx):
                 ctx.guarded("C01.d", lambda c: hl.rule_orderings(c, "C01.d", V, b[2], b[3], a[2], dec))
                 ctx.guarded("C01.e", lambda c: hl.rule_covers_all(c, "C01.e", V))
                 ctx.guarded("C01.h", lambda c: hl.rule_sample_after_swap(c, "C01.h", V))
+                ctx.guarded("C01.k", lambda c: hl.rule_seen_flags(c, "C01.k", V))
+                ctx.guarded("C01.k", lambda c: hl.rule_exit_needs_all(c, "C01.k", V))
         ctx.guarded("C01.f", rule_f, R, types)
     ctx.guarded("C01.a", body)
     ctx.guarded("C01.g", rule_g)
